@@ -328,13 +328,21 @@ type node struct {
 	maxLibNo uint64
 	lastNo   uint64
 	ops      []string
-	taint    bool // a LIB taken from a stale entry was reported (known class): later consequences on this node carry it
+	taint    bool           // a LIB taken from a stale entry was reported (known class): later consequences on this node carry it
+	updated  map[*sblk]bool // every block the chain service ever passed to Status.Update
+}
+
+func (b *sblk) isAncestorOf(x *sblk) bool {
+	for x != nil && x.no > b.no {
+		x = x.prev
+	}
+	return x == b
 }
 
 func (w *world) newNode(self int) *node {
 	w.nnode++
 	n := &node{w: w, dir: filepath.Join(w.root, fmt.Sprintf("n%d", w.nnode)), known: map[*sblk]bool{}, declared: map[*sblk]bool{},
-		tsOK: map[*sblk]bool{}}
+		tsOK: map[*sblk]bool{}, updated: map[*sblk]bool{}}
 	os.RemoveAll(n.dir)
 	for _, sub := range []string{"chain", "state"} {
 		copyFile(filepath.Join(w.tmpl, sub, "database"), filepath.Join(n.dir, sub, "database"))
@@ -453,6 +461,7 @@ func (n *node) shape(e event) string {
 		if b == nil {
 			return "Update with a block the harness never made"
 		}
+		n.updated[b] = true
 		switch n.ph.kind {
 		case "synced":
 			switch {
@@ -660,14 +669,26 @@ func (n *node) check(arrived *sblk) {
 				w.showBI(lib), arrived.name, nameAt(n.main, lib.No), lib.No), class, n.replay())
 		}
 	}
-	// quorum of distinct producers at or above a new LIB
+	// quorum: a new LIB needs blocks of more than two thirds of the distinct producers at or above it. The property does not say
+	// "on the main chain": blocks of a branch that was rolled forward and not adopted (failed roll-forward) did confirm it.
 	if lb != nil && lib.No > 0 && lib.No > n.lastNo && n.onMain(lb) {
 		seen := map[int]bool{}
-		for i := lib.No; i < uint64(len(n.main)); i++ {
-			seen[n.main[i].bp] = true
+		for x := range n.updated {
+			if x.bp >= 0 && lb.isAncestorOf(x) {
+				seen[x.bp] = true
+			}
 		}
-		if q := len(w.prods)*2/3 + 1; len(seen) < q {
+		onMain := map[int]bool{}
+		for i := lib.No; i < uint64(len(n.main)); i++ {
+			onMain[n.main[i].bp] = true
+		}
+		q := len(w.prods)*2/3 + 1
+		if len(seen) < q {
 			w.run.Fail(fmt.Sprintf("LIB advanced to %s with blocks of only %d distinct producers at or above it; %d needed", w.showBI(lib), len(seen), q), n.replay())
+		}
+		if len(onMain) < q {
+			// counted: the confirmations came (partly) from a branch this node rolled forward and did NOT adopt
+			w.run.Count("lib-advanced-by-blocks-of-a-branch-not-adopted")
 		}
 	}
 	// never undone
@@ -757,6 +778,53 @@ func scripted(e *env) {
 			run.Count("scripted below-lib-branch=" + n.arrive(y))
 		}
 	}
+}
+
+// scriptedFailedBranch: the LIB moves during a roll-forward that is then cancelled. Two honest rounds b1..b8; this node (p0) is cut
+// off and builds m9..m20 alone; p1 p2 p3 build c9..c20 (arrives as a side branch: not longer), then c21 whose claimed state root
+// is wrong: the reorganisation to c21 rolls c9..c20 forward (the LIB advances on that branch), c21 fails, the Status is put back on
+// m20 — with the LIB and the proposed entries it picked up on the branch it did NOT adopt. A valid c21' then arrives.
+func scriptedFailedBranch(e *env) {
+	run := e.run
+	w := e.world(4)
+	n := w.newNode(0)
+	defer n.close()
+	tip := w.gblk
+	for i := 0; i < 8; i++ {
+		tip = w.mk(tip, i%4, w.honest(tip, i%4), false)
+		n.arrive(tip)
+	}
+	root := tip
+	m := root
+	for i := 0; i < 12; i++ {
+		m = w.mk(m, 0, w.honest(m, 0), false)
+		n.arrive(m)
+	}
+	c := root
+	for i := 0; i < 12; i++ {
+		p := 1 + i%3
+		c = w.mk(c, p, w.honest(c, p), false)
+		n.arrive(c)
+	}
+	c20 := c
+	libBefore := n.cons.st.VerifC08Dump().Lib
+	bad := w.mk(c20, 1+12%3, w.honest(c20, 1+12%3), true)
+	run.Count("scripted failed-branch bad-top=" + n.arrive(bad))
+	d := n.cons.st.VerifC08Dump()
+	lb := w.byHsh[libKey(w, d.Lib.Hash)]
+	run.Count(fmt.Sprintf("scripted failed-branch lib-before=%d lib-after=%s on-main=%v best=%s", libBefore.No, w.showBI(d.Lib), lb != nil && n.onMain(lb), n.tip().name))
+	good := w.mk(c20, 2, w.honest(c20, 2), false)
+	run.Count("scripted failed-branch valid-top=" + n.arrive(good))
+	run.Count(fmt.Sprintf("scripted failed-branch final-best=%s (the valid branch top is %s)", n.tip().name, good.name))
+}
+
+func libKey(w *world, id string) string {
+	for k, b := range w.byHsh {
+		if b.b.ID() == id {
+			return k
+		}
+	}
+	return ""
 }
 
 type env struct {
@@ -851,6 +919,7 @@ func main() {
 		return newWorld(run, run.Rng.Fork(), pool, n, filepath.Join(run.Out, "cs", fmt.Sprint(e.nw)))
 	}
 	scripted(e)
+	scriptedFailedBranch(e)
 	random(e)
 	os.RemoveAll(filepath.Join(run.Out, "cs"))
 	run.Finish()
